@@ -51,6 +51,28 @@ def build_hierarchy(spec):
         simples, complexes = [], []
         for s in entries:
             sid = s.get("id", f"{sname}.{s['name']}")
+            if s.get("from_xml"):
+                # the specification as ODX text, read by ComplexComparam.from_et; a sub-parameter
+                # given as (name, [(name, default), ...]) is a nested COMPLEX-COMPARAM
+                from xml.etree import ElementTree
+                from xml.sax.saxutils import escape
+                from .build import FRAGS
+
+                def cp_xml(cid, n, d):
+                    return (f'<COMPARAM ID="{cid}" PARAM-CLASS="COM" CPTYPE="STANDARD"><SHORT-NAME>{n}'
+                            f'</SHORT-NAME><PHYSICAL-DEFAULT-VALUE>{escape(str(d))}'
+                            f'</PHYSICAL-DEFAULT-VALUE><DATA-OBJECT-PROP-REF ID-REF="cps.dop"/></COMPARAM>')
+
+                def cx_xml(cid, n, subs):
+                    body = ""
+                    for sn, sd in subs:
+                        body += cx_xml(f"{cid}.{sn}", sn, sd) if isinstance(sd, list) else \
+                            cp_xml(f"{cid}.{sn}", sn, sd)
+                    return (f'<COMPLEX-COMPARAM ID="{cid}" PARAM-CLASS="UNIQUE_ID" CPTYPE="STANDARD">'
+                            f'<SHORT-NAME>{n}</SHORT-NAME>{body}</COMPLEX-COMPARAM>')
+                complexes.append(ComplexComparam.from_et(
+                    ElementTree.fromstring(cx_xml(sid, s["name"], s["sub"])), FRAGS))
+                continue
             if "sub" in s:
                 subs = NamedItemList([simple(f"{n}", d) for n, d in s["sub"]])
                 for sp in subs:  # sub-parameters have their own ids
